@@ -31,7 +31,7 @@ def base_graphs(tier, rng, boost):
     for edges in G.all_graphs(2, 2):
         if all(s == 0 for _, _, _, s in edges):
             out.append(G.graph_case(2, edges, "g2").lines[0])
-    for n, cnt in ((3, 40 if quick else 300), (4, 40 if quick else 400)):
+    for n, cnt in ((3, 120 if quick else 600), (4, 120 if quick else 800)):
         for _ in range(cnt * boost):
             edges, seen = [], set()
             for _ in range(rng.randint(2, 5)):
